@@ -3,11 +3,12 @@
 (* mutations below (bounded container sizes).  They are what "tracks exactly the objects currently *)
 (* reachable" means structurally, and what makes incremental maintenance possible (FrameLaw).      *)
 EXTENDS Observe
-CONSTANTS MaxKids, KidsOwners, DictOwners
+CONSTANTS MaxKids, KidsOwners, DictOwners, SetOwners
 VARIABLES h, last
 vars == <<h, last>>
 None == 1000
-Empty == [child |-> [x \in Obj |-> NoneO], kids |-> [x \in Obj |-> <<>>], d |-> [x \in Obj |-> <<>>]]
+Empty == [child |-> [x \in Obj |-> NoneO], kids |-> [x \in Obj |-> <<>>], d |-> [x \in Obj |-> <<>>],
+          s |-> [x \in Obj |-> {}], dl |-> [x \in Obj |-> <<>>], hasx |-> [x \in Obj |-> 0], xv |-> [x \in Obj |-> 0]]
 Mk(t, op, x, a, xs, ps) == [t |-> t, op |-> op, x |-> x, a |-> a, xs |-> xs, ps |-> ps]
 Muts == {Mk("child", "", x, <<y, 0, 0>>, <<>>, <<>>) : x \in Obj, y \in 0..NObj}
         \cup {Mk("kids", "append", x, <<0, 0, 0>>, <<y>>, <<>>) : x \in KidsOwners, y \in Obj}
@@ -16,6 +17,10 @@ Muts == {Mk("child", "", x, <<y, 0, 0>>, <<>>, <<>>) : x \in Obj, y \in 0..NObj}
         \cup {Mk("kidsassign", "", x, <<0, 0, 0>>, <<>>, <<>>) : x \in KidsOwners}
         \cup {Mk("d", "setitem", x, <<k, y, 0>>, <<>>, <<>>) : x \in DictOwners, k \in {1, 11}, y \in Obj}
         \cup {Mk("d", "clear", x, <<0, 0, 0>>, <<>>, <<>>) : x \in DictOwners}
+        \cup {Mk("s", "add", x, <<y, 0, 0>>, <<>>, <<>>) : x \in SetOwners, y \in Obj}
+        \cup {Mk("s", "clear", x, <<0, 0, 0>>, <<>>, <<>>) : x \in SetOwners}
+        \cup {Mk("dl", "setitem", x, <<1, 0, 0, 0>>, q, <<>>) : x \in SetOwners, q \in {<<>>} \cup {<<y>> : y \in Obj}}
+        \cup {Mk("addx", "", x, <<0, 0, 0>>, <<>>, <<>>) : x \in SetOwners}
 Init == h = Empty /\ last = Mk("init", "", 1, <<0, 0, 0>>, <<>>, <<>>)
 Do(m) == /\ (m.t = "kids" => L!Apply(m.op, h.kids[m.x], "id", m.a, m.xs).excs = {""})
          /\ h' = Mutate(h, m) /\ last' = m
@@ -27,11 +32,14 @@ Spec == Init /\ [][Next]_vars
 Linked == Closure(h, {Root})
 
 NotifyingIsCovered == \A e \in Exprs : Notifying(h, e) \subseteq AllCovered(h, e)
-DetachedNeverObserved == \A e \in Exprs : \A ob \in AllCovered(h, e) : ob[2] \in Linked
+OwnerOf(ob) == IF ob[1] = "L" THEN ob[2] \div 100 ELSE ob[2]
+DetachedNeverObserved == \A e \in Exprs : \A ob \in AllCovered(h, e) : OwnerOf(ob) \in Linked
 QuietLinksOnlyRemoveTheLink ==
   /\ Notifying(h, "child.value") = Notifying(h, "child:value") \cup {<<"trait", Root, "child">>}
   /\ AllCovered(h, "child.value") = AllCovered(h, "child:value")
   /\ Notifying(h, "kids.items.value") = Notifying(h, "kids:items:value") \cup {<<"trait", Root, "kids">>, <<"l", Root>>}
+SetsLikeLists == \A x \in Obj : (h.s[Root] = SeqSet(h.kids[Root]) /\ h.kids[Root] # <<>>) =>
+                    {ob \in Notifying(h, "s.items.value") : ob[1] = "trait" /\ ob[3] = "value"} = {ob \in Notifying(h, "kids.items.value") : ob[1] = "trait" /\ ob[3] = "value"}
 ParallelIsUnion == Notifying(h, "[child,kids.items].value") = Notifying(h, "child.value") \cup Notifying(h, "kids.items.value")
 SeriesExtends == \A ob \in Notifying(h, "child") : ob \in Notifying(h, "child.value")
 MetadataIsTheTaggedTraits == /\ Notifying(h, "+tracked.value") = Notifying(h, "child.value")
